@@ -59,7 +59,7 @@ def modname(case_id):
 
 
 class Case:
-    def __init__(self, case_id, code, types=None, extra="", asserts=None):
+    def __init__(self, case_id, code, types=None, extra="", asserts=None, wrap_mod=None):
         """code: Rust source of the generated module (pretty-printed token stream).
         types: {type path inside the module: [probe kinds]} -> generic dispatch arms in main.rs
         extra: Rust appended to the case file inside `pub mod verif_x { use super::*; ... }`; may define
@@ -70,6 +70,8 @@ class Case:
         self.types = types or {}
         self.extra = extra
         self.asserts = asserts or []
+        self.wrap_mod = wrap_mod      # place the generated code inside `pub mod <wrap_mod> { .. }` (C17: type_mod)
+        self.assert_line = None       # first line of the assertion region in the case file (set when written)
         self.has_x = "pub fn probe" in extra
 
 
@@ -128,11 +130,15 @@ class Batch:
         k = self.assign[c.id]
         p = os.path.join(self.dir, self.crate(k), "src", modname(c.id) + ".rs")
         with open(p, "w") as f:
-            f.write("#![allow(warnings)]\n")
-            f.write(c.code)
-            f.write("\n")
+            text = "#![allow(warnings)]\n"
+            if c.wrap_mod:
+                text += "pub mod %s {\n%s\n}\n" % (c.wrap_mod, c.code)
+            else:
+                text += c.code + "\n"
+            c.assert_line = text.count("\n") + 1
             for a in c.asserts:
-                f.write(a + "\n")
+                text += a + "\n"
+            f.write(text)
             if c.extra:
                 f.write("pub mod verif_x {\n    use super::*;\n    use verif_support as vs;\n    use vs::serde_json::{self, json, Value};\n")
                 f.write(c.extra)
@@ -239,7 +245,10 @@ class Batch:
                 if cid is None:
                     raise MachineryError("unattributable compile error in %s (%s:%s) %s: %s\n%s" %
                                          (self.crate(k), fname, line, code, message, stderr[-3000:]))
-                newly.setdefault(cid, []).append({"code": code, "msg": message[:300], "where": where})
+                if where == "module" and line is not None and self.cases[cid].assert_line is not None and line >= self.cases[cid].assert_line \
+                        and self.cases[cid].asserts:
+                    where = "assert"
+                newly.setdefault(cid, []).append({"code": code, "msg": message[:300], "where": where, "line": line})
             if not newly:
                 raise MachineryError("cargo failed without attributable errors:\n" + stderr[-4000:])
             for cid, es in newly.items():
